@@ -126,6 +126,30 @@ pub fn run_pipeline(sh: &mut Shell, cl: &CommandLine, tty: bool, capture: bool, 
 #[verifier::external_body]
 pub fn vx_take_terminal_back() { unimplemented!() }
 
+// ---- split_first_substitution: the first `$(` of a text and its matching `)` ----
+pub open spec fn opens_at(t: Seq<char>, k: int) -> bool { 0 <= k && k + 1 < t.len() && t[k] == '$' && t[k + 1] == '(' }
+// nesting depth after reading c[0..n), starting from 1 (just inside the `$(`)
+pub open spec fn depth_after(c: Seq<char>, n: int) -> int
+    decreases n
+{
+    if n <= 0 { 1 } else { depth_after(c, n - 1) + (if c[n - 1] == '(' { 1int } else if c[n - 1] == ')' { -1int } else { 0int }) }
+}
+pub open spec fn after_open(t: Seq<char>, i: int) -> Seq<char> { t.subrange(i + 2, t.len() as int) }
+pub proof fn lemma_depth_prefix(a: Seq<char>, b: Seq<char>, n: int)
+    requires 0 <= n <= a.len(), n <= b.len(), forall|k: int| 0 <= k < n ==> a[k] == b[k],
+    ensures depth_after(a, n) == depth_after(b, n),
+    decreases n
+{
+    if n > 0 { lemma_depth_prefix(a, b, n - 1); }
+}
+#[verifier::external_body]
+pub fn vx_chars_b(a: &str) -> (r: Vec<char>) ensures r@ == a@, r@.len() < usize::MAX as int { a.chars().collect() }
+#[verifier::external_body]
+pub fn vx_collect(v: &Vec<char>, a: usize, b: usize) -> (r: String)
+    requires a <= b <= v@.len()
+    ensures r@ == v@.subrange(a as int, b as int)
+{ v[a..b].iter().collect() }
+//@FN split_first_substitution
 //@FN do_command_substitution_for_dollar
 //@FN do_command_substitution_for_dot
 //@FN do_command_substitution
@@ -183,22 +207,53 @@ def frame_inv(cond):
             '&& (!(' + c_old + ') ==> tokens@[k].1@ == old(tokens)@[k].1@)')
 
 
-dollar = Fn(S, 'do_command_substitution_for_dollar', props=('C11',),
-    pre_rewrites=COMMON_RW + [
-        Rw(r'let re;[^{};]*if let Ok\(x\) = Regex::new\(ptn\) \{', 'let re = match vx_regex_new(ptn) { Ok(x) => x, Err(_) => { return; } }; VXELSE', regex=True, balanced=True, rule='R6',
-           why='Regex::new(ptn) through a shim; same early return on failure'),
-        Rw(r'VXELSE[^{};]*else \{', '', regex=True, balanced=True, rule='R6'),
-        Rw('''output_txt.replace('$', "$$")''', 'vx_escape_dollar(&output_txt)', rule='R12', required=False,
-           why="str::replace('$', \"$$\") through a shim (every `$` doubled)"),
+split_first = Fn(S, 'split_first_substitution', ret='r', props=('C11',),
+    pre_rewrites=[
+        Rw('text.chars().collect()', 'vx_chars_b(text)', rule='R2', why='chars().collect() through the chars shim (a Vec holds fewer than usize::MAX elements)'),
+        Rw('chars[..i].iter().collect()', 'vx_collect(&chars, 0, i)', rule='R12', why='slice of the char vector collected into a String, through a shim'),
+        Rw('chars[i + 2..j].iter().collect()', 'vx_collect(&chars, i + 2, j)', rule='R12'),
+        Rw('chars[j + 1..].iter().collect()', 'vx_collect(&chars, j + 1, chars.len())', rule='R12'),
     ],
+    let_types={'i': 'usize', 'j': 'usize'},
+    hints={'before-text:let head: String': 'assert forall|n: int| 0 <= n <= j - (i + 2) implies '
+                                           '#[trigger] depth_after(text@.subrange(i + 2, j as int), n) == depth_after(after_open(text@, i as int), n) by '
+                                           '{ lemma_depth_prefix(text@.subrange(i + 2, j as int), after_open(text@, i as int), n); } '
+                                           'assert(text@ =~= text@.subrange(0, i as int) + seq![\'$\', \'(\'] + text@.subrange(i + 2, j as int) + seq![\')\'] + text@.subrange(j + 1, text@.len() as int));',
+           'hdr:while j < chars.len()|body-entry': 'assert(after_open(text@, i as int)[j - (i + 2)] == text@[j as int]);'},
+    ensures=[
+        ('C11.split.pieces_are_head_command_tail_of_the_first_substitution',
+         'match r { Some(p) => text@ == p.0@ + seq![\'$\', \'(\'] + p.1@ + seq![\')\'] + p.2@ '
+         '&& (forall|k: int| 0 <= k < p.0@.len() ==> !opens_at(text@, k)) '                       # it is the FIRST `$(`
+         '&& depth_after(p.1@, p.1@.len() as int) == 1 '                                          # the parentheses inside are balanced ...
+         '&& (forall|n: int| 0 <= n <= p.1@.len() ==> depth_after(p.1@, n) >= 1) '                # ... and the closing one is the matching one
+         '&& p.2@.len() < text@.len(), None => true }'),
+    ],
+    loops={
+        0: Loop(invariant=[('C11.inv.split.no_opening_before', 'chars@ == text@ && chars@.len() < usize::MAX as int && i <= chars@.len() && forall|k: int| 0 <= k < i ==> !opens_at(text@, k)')],
+                decreases='chars@.len() - i'),
+        1: Loop(invariant=[
+            ('C11.inv.split.scan', 'chars@ == text@ && chars@.len() < usize::MAX as int && i + 2 <= j <= chars@.len() && opens_at(text@, i as int) '
+                                   '&& (forall|n: int| 0 <= n <= j - (i + 2) ==> #[trigger] depth_after(after_open(text@, i as int), n) >= 1) '
+                                   '&& (forall|k: int| 0 <= k < i ==> !opens_at(text@, k))'),
+        ], invariant_except_break=[
+            ('C11.inv.split.depth', 'depth as int == depth_after(after_open(text@, i as int), j - (i + 2)) && 1 <= depth <= j - i'),
+        ], ensures=[('C11.inv.split.found', 'j < chars@.len() ==> text@[j as int] == \')\' && depth_after(after_open(text@, i as int), j - (i + 2)) == 1')],
+           decreases='chars@.len() - j'),
+    },
+)
+
+dollar = Fn(S, 'do_command_substitution_for_dollar', props=('C11',),
+    pre_rewrites=COMMON_RW,
     add_params='Tracked(lg): Tracked<&mut SubLog>',
     ghost_args={'from_line': 'Tracked(lg)', 'run_pipeline': 'Tracked(lg)'},
     hints={'fn-entry': 'note_pass(lg, 1);',
-           'after-call:replace':
-           'LABEL:C11.dollar.step_inserts_the_output_literally_between_head_and_tail: '
-           'assert(result@ == spec_sub_head(line_@) + spec_trim(cmd_result.stdout@) + spec_sub_tail(line_@));',
            # ghost record, taken from the data flow (not from the code's own flag): this word received an operator character from an output
            'after-call:vx_trim': 'if has_op(spec_trim(cmd_result.stdout@)) && sep@.len() == 0 && !spec_is_assign(token@) { note_op_word(lg, idx as int); }',
+           'before-text:line.push_str(&head);': 'RAW: let ghost __line0 = line@;',
+           # THE STEP: the text in front of the substitution and the output are appended literally; only the tail is scanned again
+           'after-text:rest = tail;':
+           'LABEL:C11.dollar.step_appends_head_and_output_literally_and_continues_with_the_tail_only: '
+           'assert(line@ == __line0 + head@ + spec_trim(cmd_result.stdout@) && rest@ == tail@);',
            'before-text:data_words.push(idx);': 'lemma_in_words_push(data_words@, idx);',
            'loop-3-body-entry': 'lemma_quote_lit();',
            'loop-3-exit': EXIT_HINT},
@@ -215,10 +270,11 @@ dollar = Fn(S, 'do_command_substitution_for_dollar', props=('C11',),
             ('C13.inv.dollar.words', words_inv('tokens@', '__I', DCOND)),
             ('C13.inv.dollar.ops', OPS),
         ]),
+        # the scan of one word terminates: what is left to scan gets shorter with every substitution
         1: Loop(invariant=[
             ('C11.inv.dollar.once', 'lg.ran - old(lg).ran <= lg.planned - old(lg).planned && lg.order == old(lg).order.push(1)'),
             ('C13.inv.dollar.ops_inner', 'forall|k: int| lg.op_words.contains(k) ==> old(lg).op_words.contains(k) || in_words(data_words@, k) || (k == idx as int && got_operator && sep@.len() == 0 && !spec_is_assign(token@))'),
-        ], decreases='spec_subst_count(line@)'),
+        ], decreases='rest@.len()'),
         2: Loop(invariant=[
             ('C11+C13.inv.dollar.frame', 'tokens@.len() == old(tokens)@.len() && forall|k: int| 0 <= k < tokens@.len() ==> (#[trigger] tokens@[k]).0@ == old(tokens)@[k].0@ '
                                          '&& (!(' + DCOND.replace('T', 'old(tokens)@[k]') + ') ==> tokens@[k].1@ == old(tokens)@[k].1@)'),
@@ -301,7 +357,7 @@ both = Fn(S, 'do_command_substitution', add_params='Tracked(lg): Tracked<&mut Su
     ghost_args={'do_command_substitution_for_dot': 'Tracked(lg)', 'do_command_substitution_for_dollar': 'Tracked(lg)'},
     ensures=[('C11.subst.backquote_pass_first_then_the_dollar_pass', 'final(lg).order == old(lg).order.push(0).push(1)')])
 
-UNIT = Unit('U-EXP3', TEMPLATE, fns=[common.has_operator_fn(), dollar, dot, both, Fn('src/types.rs', 'new', impl='CommandResult')],
+UNIT = Unit('U-EXP3', TEMPLATE, fns=[common.has_operator_fn(), split_first, dollar, dot, both, Fn('src/types.rs', 'new', impl='CommandResult')],
             types=[TypeItem('src/types.rs', 'struct', 'Command'), TypeItem('src/types.rs', 'struct', 'CommandLine'), TypeItem('src/types.rs', 'struct', 'CommandResult')],
             props=('C11', 'C13', 'C01', 'C05'))
 TRUSTED = common.TRUSTED_STR + common.TRUSTED_TOKEN + [
